@@ -167,7 +167,7 @@ def part_env(ck, tmp):
     h = os.path.join(tmp, "e.h")
     open(h, "w").write("int x;\n")
     exe = os.path.join(vlib.TARGET, "debug", "bgv")
-    rc, out, err = sh2([exe, "cargocb", "-", "rustfmt", enc(h)], env={"RUSTFMT": "/nonexistent/rustfmt"}, timeout=120)
+    rc, out, err = sh2([exe, "cargocb", "-", "rustfmt", "1", enc(h)], env={"RUSTFMT": "/nonexistent/rustfmt"}, timeout=120)
     reported = set(re.findall(r"^cargo:rerun-if-env-changed=(.*)$", out, re.M))
     consulted_rustfmt = "Failed to run rustfmt" in err or "rustfmt" in err.lower()
     ck.notes["env_reported_dynamic"] = sorted(reported)
@@ -247,6 +247,23 @@ class Dag:
             for tgt, mode, form in inc[x]:
                 if mode == "active":
                     todo.append(tgt)
+        # further input headers (library use: Builder::header several times); the LAST one is the main file,
+        # the others reach clang as -include
+        self.inputs = [rel[order[0]]]
+        if len(order) > 2 and r.random() < 0.5:
+            extra = r.sample(order[1:], min(len(order) - 1, r.choice([1, 2])))
+            for x in extra:
+                todo2, s2 = [x], set()
+                while todo2:
+                    y = todo2.pop()
+                    if y in seen or y in s2:
+                        continue
+                    s2.add(y)
+                    for tgt, mode, form in inc[y]:
+                        if mode == "active":
+                            todo2.append(tgt)
+                seen |= s2
+            self.inputs = [rel[x] for x in extra] + [rel[order[0]]]
         self.active = {rel[x] for x in seen}
         self.main = rel[order[0]]
         for p, t in self.files.items():
@@ -269,7 +286,7 @@ def part_dag(ck, r, tmp, n):
         d = Dag(r, root).build()
         dep = os.path.join(root, "out.d")
         cargs = ["-I" + os.path.join(root, "inc"), "-isystem", os.path.join(root, "sys inc"), "-I" + root]
-        rc, out, err = sh2([exe, "cargocb", enc(dep), "none", enc(d.main)] + [enc(a) for a in cargs], cwd=root, timeout=120)
+        rc, out, err = sh2([exe, "cargocb", enc(dep), "none", str(len(d.inputs))] + [enc(h) for h in d.inputs] + [enc(a) for a in cargs], cwd=root, timeout=120)
         ck.evaluations += 1
         if len(d.files) >= 3:
             ck.nontrivial.add(json.dumps(sorted(d.files.items())))
@@ -277,20 +294,26 @@ def part_dag(ck, r, tmp, n):
             ck.violation("C17-dag-generation-failed", "bindgen failed on a generated include DAG", {"files": d.files, "main": d.main, "stdout": out[-500:], "stderr": err[-500:]})
             continue
         # cross-check truth with clang -H
-        rc2, o2, e2 = sh2(["clang", "-fsyntax-only", "-H", "-x", "c", d.main] + cargs, cwd=root, timeout=60)
+        pre = []
+        for h in d.inputs[:-1]:
+            pre += ["-include", h]
+        rc2, o2, e2 = sh2(["clang", "-fsyntax-only", "-H", "-x", "c"] + cargs + pre + [d.main], cwd=root, timeout=60)
         # clang -H doubles backslashes in the paths it prints
-        clang_set = {norm(m.group(1).replace("\\\\", "\\"), root) for m in re.finditer(r"^\.+ (.*)$", e2, re.M)} | {d.main}
+        clang_set = {norm(m.group(1).replace("\\\\", "\\"), root) for m in re.finditer(r"^\.+ (.*)$", e2, re.M)} | {os.path.normpath(h) for h in d.inputs}
         truth = {os.path.normpath(p) for p in d.active}
         if clang_set != truth:
             ck.count("dag_generator_truth_differs_from_clang_H")
-            truth = clang_set  # clang is the oracle for what was read
+            if len(d.inputs) == 1:
+                truth = clang_set  # clang is the oracle for what was read
+            # (clang -H does not list what a command-line -include pulls in, so with several inputs the generator's own
+            #  reachability over active includes is the truth)
         hdr = {norm(dec(x), root) for x in re.findall(r"^CB header_file (.*)$", out, re.M)}
         inc = {norm(dec(x), root) for x in re.findall(r"^CB include_file (.*)$", out, re.M)}
         cargo = {norm(x, root) for x in re.findall(r"^cargo:rerun-if-changed=(.*)$", out, re.M)}
         deptext = open(dep, encoding="utf-8", errors="surrogateescape").read() if os.path.exists(dep) else ""
         # depfile through the dialect reader (python transcription of Model.parse_d; the Coq one runs below on a sample)
         dset = {norm(p, root) for p in parse_d_py(deptext)[1]}
-        data = {"files": d.files, "main": d.main, "clang_args": cargs, "read(clang -H)": sorted(truth), "header_file": sorted(hdr), "include_file": sorted(inc),
+        data = {"files": d.files, "input_headers": d.inputs, "clang_args": cargs, "read(clang -H)": sorted(truth), "header_file": sorted(hdr), "include_file": sorted(inc),
                 "cargo_lines": sorted(cargo), "depfile": deptext}
         if hdr | inc != truth:
             missing, extra = truth - (hdr | inc), (hdr | inc) - truth
